@@ -97,6 +97,8 @@ class DensityMatrixEvolution(MatrixData, BasisManaged, Saveable):
             S1 = inv
 
         #S1 = scipy.linalg.inv(SS)                 
+        # the values are written back into the storage
+        self._data = self._storage_for_transform(self._data, SS)
         for ii in range(self.TimeAxis.length):
             self._data[ii,:,:] = numpy.dot(S1,
                     numpy.dot(self._data[ii,:,:],SS))    
